@@ -1,7 +1,7 @@
 """Bounded stand-in / replay vehicle for C05 on the REAL code (elfi.Rejection end to end + the OutputPool API).
 
 run_histories: one pool (dict OutputPool or on-disk ArrayPool under /var/tmp) goes through a HISTORY of <= 4 operations
-  R2 / R3   Rejection(..., pool=pool).sample(3, n_sim = k * batch_size)  (fill / rerun / rerun needing more batches than stored)
+  R2 / R3   Rejection(..., pool=pool).sample(min(3, 2 * batch_size), n_sim = k * batch_size) [never more samples than simulations: C01-F9]  (fill / rerun / rerun needing more batches than stored)
   RM_P      remove the stores of all parameters           RM_D   remove the store of the most downstream stored node
   RP_S2 / RP_d  replace the summary S2 / the distance d by a different function (the stores of the replaced node and of its
             descendants are removed first: a pool keyed by node name cannot notice a changed function)
@@ -122,7 +122,7 @@ def reference(elfi, variant, b, seed, k, outputs=OUTPUTS):
         if kk not in c:
             rec = Rec()
             m = build(elfi, variant, rec)
-            res = elfi.Rejection(m['d'], batch_size=b, seed=seed, output_names=list(outputs)).sample(3, n_sim=kk * b, bar=False)
+            res = elfi.Rejection(m['d'], batch_size=b, seed=seed, output_names=list(outputs)).sample(min(3, 2 * b), n_sim=kk * b, bar=False)
             c[kk] = (res, rec)
     return c[k][0], c[KMAX][1]
 
@@ -178,7 +178,7 @@ def run_history(elfi, kind, stores, hist, b, seed, tmp, outputs=OUTPUTS):
                     rej = elfi.Rejection(m['d'], output_names=list(outputs), pool=pool, **kw)
                 except ValueError as e:
                     return dict(what='%s: the pool refuses its own batch_size / seed: %s' % (where, e), signature='c05:context-refused')
-                res = rej.sample(3, n_sim=k * b, bar=False)
+                res = rej.sample(min(3, 2 * b), n_sim=k * b, bar=False)
                 tag = '' if admissible([s for s in pool.stores], outputs) else ' [parameters stored, simulator re-executed]'
                 w = same_sample(res, ref)
                 if w:
